@@ -120,6 +120,10 @@ theorem failure_codes : failureReply 10060 = 6 ∧ failureReply 10061 = 5 ∧ fa
 theorem relay_chunking_independent (chunks chunks' : List Bytes) (h : chunks.flatten = chunks'.flatten) :
     (chunks.map id).flatten = (chunks'.map id).flatten := by simpa using h
 
+/-- the same on every control-flow path separately (regenerated `Gen.LockPaths`): no early return, branch or case of
+    any of these functions leaves a mutex held that a `defer` does not release -/
+theorem table_locks_balanced_every_path : pathsUnbalancedIn ["agent", "socks"] = [] := by decide
+
 /-- regenerated: every function of pkg/agent and pkg/socks that takes a table mutex releases it -/
 theorem table_locks_balanced : unbalancedIn ["agent", "socks"] = [] := by decide
 
